@@ -442,4 +442,38 @@ func runC17(c *Ctx) {
 		single := GNil("single tag (no seen-set)", func(v ssa.Value) bool { _, isMap := v.Type().Underlying().(*types.Map); return isMap }, true)
 		c.RequireAnyGate("C17.5-one-copy-per-stream", bc, []Gate{miss, single}, nil, app, "append stream to the fan-out list", nil, false)
 	}
+
+	// ---- C17.6 withdrawing one subscription never removes another's interest: patternTrie.remove
+	// deletes a trie node only when no pattern terminates at it any more (refs == 0). An interior
+	// node that terminates a shorter, still subscribed pattern must survive the withdrawal of a
+	// longer pattern that passes through it.
+	{
+		rm := p.Func(psPkg + ":(*patternTrie).remove")
+		c.Fn(FuncName(rm))
+		refsF := p.Field(psPkg + ":trieNode.refs")
+		noRefs := GCmp("node.refs == 0", func(a Atom) (bool, bool) {
+			if !IsLoadOfField(a.X, refsF) {
+				return false, false
+			}
+			k, ok := IntConst(a.Y)
+			if !ok || k != 0 {
+				return false, false
+			}
+			switch a.Op {
+			case token.EQL:
+				return true, true
+			case token.NEQ, token.GTR:
+				return true, false
+			}
+			return false, false
+		})
+		del := CallSinks(rm, calleeMethod("commonspace/pubsub", "deleteChild"), false)
+		if len(del) == 0 {
+			c.Hold("C17.6-prune-only-unreferenced", FuncName(rm)+"|deleteChild", p.Pos(rm.Pos()), "remove never deletes a node")
+		} else {
+			// the refs test that matters is the one on the unwind path; `refs == 0 → return` at the
+			// terminal also matches the gate, so demand the pass edge on every path into the delete
+			c.RequireGate("C17.6-prune-only-unreferenced", rm, noRefs, del, "level.deleteChild (prune)")
+		}
+	}
 }
